@@ -120,6 +120,9 @@ def cranges(rs):
 # ------------------------------------------------------------------------------------------------
 # the alternation
 
+EXPECTED_STRING_PATTERN = r"""(?P<stringDelimiter>["'])(\\.|[^\\])*?(?P=stringDelimiter)"""
+
+
 def split_alternatives(pattern):
     if not (pattern.startswith("(") and pattern.endswith(")")):
         raise Unsupported("grab_token pattern is not one parenthesised alternation")
@@ -518,6 +521,9 @@ def gen_xpath():
             if pat != T.name_pattern:
                 raise Unsupported("NAME alternative is not name_pattern")
             pat = "[<name_start_ranges>][<name_start_ranges><name_extra_ranges>]*"
+        if name == "STRING" and pat != EXPECTED_STRING_PATTERN:
+            raise Unsupported("the STRING alternative of grab_token is no longer %s (Tok.scan_string models exactly that "
+                              "pattern: one unit per step, no nested quantifier)" % EXPECTED_STRING_PATTERN)
         if name not in members and name != "ERROR":
             raise Unsupported("alternative %s is not a TokenType member" % name)
         shown.append((name, pat))
@@ -703,6 +709,28 @@ def gen_xpath():
                                               "through the parse cache)" % (c.name, f.name, y.attr))
                 if isinstance(n, ast.Call) and isinstance(n.func, ast.Name) and n.func.id in ("setattr", "delattr"):
                     raise Unsupported("ast.py: %s.%s uses %s" % (c.name, f.name, n.func.id))
+    # the same for every function of the module, nested ones included (decorators such as ensure_prefix wrap the
+    # evaluate methods and receive the node as `self`): nothing but an __init__ may write to an attribute of `self`
+    for fdef in (n for n in ast.walk(ast_tree) if isinstance(n, (ast.FunctionDef, ast.Lambda))):
+        if isinstance(fdef, ast.FunctionDef) and fdef.name == "__init__":
+            continue
+        for n in ast.walk(fdef):
+            if isinstance(n, ast.FunctionDef) and n is not fdef and n.name == "__init__":
+                continue
+            tg = n.targets if isinstance(n, (ast.Assign, ast.Delete)) else \
+                [n.target] if isinstance(n, (ast.AugAssign, ast.AnnAssign)) else []
+            for x in tg:
+                for y in ast.walk(x):
+                    if isinstance(y, ast.Attribute) and isinstance(y.value, ast.Name) and y.value.id == "self":
+                        raise Unsupported("ast.py: %s writes self.%s outside __init__ (AST nodes are shared through the "
+                                          "parse cache)" % (getattr(fdef, "name", "<lambda>"), y.attr))
+            if isinstance(n, ast.Call) and isinstance(n.func, ast.Name) and n.func.id in ("setattr", "delattr") \
+                    or isinstance(n, ast.Call) and ast.unparse(n.func) in ("object.__setattr__", "self.__dict__.update",
+                                                                           "self.__dict__.setdefault"):
+                raise Unsupported("ast.py: %s uses %s" % (getattr(fdef, "name", "<lambda>"), ast.unparse(n.func)))
+            if isinstance(n, ast.Subscript) and isinstance(n.ctx, (ast.Store, ast.Del)) \
+                    and ast.unparse(n.value) == "self.__dict__":
+                raise Unsupported("ast.py: %s writes self.__dict__[...]" % getattr(fdef, "name", "<lambda>"))
     out += "Definition cached_properties : list (str * str) := [%s].\n\n" % "; ".join(
         "(%s, %s)" % (clit(a), clit(b)) for a, b in cps)
 
